@@ -794,9 +794,13 @@ func runCanaries(id string) int {
 			Property string `json:"property"`
 			Name     string `json:"name"`
 			Expected *bool  `json:"expected_detected"`
+			Canary   *bool  `json:"canary"`
 		}
 		if json.Unmarshal(data, &meta) != nil || meta.Property != id {
 			continue
+		}
+		if meta.Canary != nil && !*meta.Canary {
+			continue // kept for the record (DESIGN.md §9), not part of the self-test (running time)
 		}
 		scratch, err := os.MkdirTemp("", "p9vc_canary_")
 		if err != nil {
